@@ -42,6 +42,13 @@ class SleepSpec(SeqSpec):
         elif kind == "pre":
             ctx = rng.choice([["ctx", "none"], ["ctx", "deadline", far()], ["ctx", "deadline", near()]])
             ops = [ctx, ["cancel"], ["call", d], ["join"]]
+        elif kind == "huge":
+            # an expired (or unrepresentably old) deadline together with a huge d: "closer than d" must not be decided
+            # by a subtraction that overflows
+            ctx = rng.choice([["ctx", "deadline", -5 * MS], ["ctx", "deadline", -3600 * 1000 * MS], ["ctx", "deadline", "zero"],
+                              ["ctx", "deadline", near()]])
+            dd = rng.choice(["maxint", "maxint-1", "2^62", d]) if ctx[2] != "zero" else rng.choice(["maxint", d, 5 * MS])
+            ops = [ctx, ["call", dd], ["join"]]
         else:  # cancelled mid-sleep by the controller
             d = rng.choice([10, 15, 20, 30]) * MS
             ctx = rng.choice([["ctx", "none"], ["ctx", "deadline", 2 * d + 50 * MS + rng.randrange(0, 20 * MS)]])
@@ -50,8 +57,15 @@ class SleepSpec(SeqSpec):
 
     def gen(self, rng, tier, scale):
         n = int((180 if tier == "quick" else 2400) * scale)
-        kinds = ["nonpos", "plain", "far", "far", "near", "near", "pre", "mid", "mid"]
-        return [{"component": "sleep", "ops": self.gen_one(rng, kinds[i % len(kinds)])} for i in range(n)]
+        kinds = ["nonpos", "plain", "far", "far", "near", "near", "pre", "mid", "mid", "huge"]
+        cases = [{"component": "sleep", "ops": self.gen_one(rng, kinds[i % len(kinds)])} for i in range(n)]
+        for c in cases:
+            # a third of the contexts are cancelled with a cause (context.WithCancelCause)
+            if rng.random() < 0.33:
+                for o in c["ops"]:
+                    if o[0] == "ctx":
+                        o.append("cause")
+        return cases
 
     @staticmethod
     def summary(obs):
@@ -177,7 +191,11 @@ class TickerSpec(SeqSpec):
             return [["new", HUGE_D, HUGE_J]]
         if kind == "huge-wrap":
             # documented arguments (0 <= jitter < d) for which d + offset can exceed the int64 range
-            return [["new", MAX_I64, 1 << 61], ["pause", 20 * MS], ["stop", 0], ["pause", 2 * MS]]
+            # (several Resets: with the receiver already running every tick is observed)
+            ops = [["new", MAX_I64, 1 << 61], ["pause", MS // 2]]
+            for _ in range(12):
+                ops += [["reset", 0, rng.choice([MAX_I64, MAX_I64 - 5]), 1 << 61], ["pause", MS // 3]]
+            return ops + [["stop", 0], ["pause", 2 * MS]]
         if kind == "basic":
             return [["new", d, j], ["pause", rng.randrange(3, 7) * d], ["stop", 0], ["pause", 4 * d]]
         if kind == "stop-race":
@@ -244,7 +262,7 @@ class TickerSpec(SeqSpec):
             for j in self.jitters(d):
                 cases.append({"component": "ticker", "ops": [["new", d, j], ["pause", 4 * d], ["reset", 0, d, j], ["pause", 3 * d], ["stop", 0], ["pause", 4 * d]]})
         cases.append({"component": "ticker", "ops": self.gen_one(rng, "huge")})
-        for _ in range(40):
+        for _ in range(6):
             cases.append({"component": "ticker", "ops": self.gen_one(rng, "huge-wrap")})
         return cases
 
